@@ -181,6 +181,10 @@ def _boolterm(o):
 def _mkbool(e):
     if isinstance(e, bool):
         return e
+    if z3.is_true(e):
+        return True
+    if z3.is_false(e):
+        return False
     return SymBool(e)
 
 
@@ -243,8 +247,26 @@ class Sc(object):
             return Sc(_mul(a.re, b.re), _mul(a.im, b.re))
         return Sc(_sub(_mul(a.re, b.re), _mul(a.im, b.im)), _add(_mul(a.re, b.im), _mul(a.im, b.re)))
 
+    def canon(s):
+        """drop an imaginary part that is the zero polynomial (exact: equal for all values of the symbols)"""
+        if isinstance(s.im, z3.ExprRef):
+            t = z3.simplify(s.im, som=True)
+            if z3.is_rational_value(t) and t.numerator_as_long() == 0:
+                return Sc(s.re)
+            if not state.S.trans and not z3.is_rational_value(t):
+                sol = z3.Solver()
+                sol.set('timeout', 3000)
+                sol.add(t != 0)
+                if str(sol.check()) == 'unsat':
+                    return Sc(s.re)
+        return s
+
     @staticmethod
     def _d(a, b):
+        if not b.is_real:
+            b = b.canon()
+        if not a.is_real and b.is_real:
+            a = a.canon()
         if b.is_real:
             return Sc(_div(a.re, b.re), _div(a.im, b.re))
         den = _add(_mul(b.re, b.re), _mul(b.im, b.im))
@@ -352,7 +374,14 @@ class Sc(object):
         except TypeError:
             return NotImplemented
         if not (s.is_real and o.is_real):
-            raise TypeError('ordering comparison of complex Sc')
+            s, o = s.canon(), o.canon()
+        if not (s.is_real and o.is_real):
+            # NumPy orders complex numbers lexicographically (real part, then imaginary part)
+            if _is_inf(s.re) or _is_inf(o.re):
+                raise TypeError('ordering comparison of complex Sc with infinity')
+            ar, br, ai, bi = zterm(s.re), zterm(o.re), zterm(s.im), zterm(o.im)
+            strict = {operator.gt: operator.gt, operator.ge: operator.gt, operator.lt: operator.lt, operator.le: operator.lt}[op]
+            return _mkbool(z3.simplify(z3.Or(strict(ar, br), z3.And(ar == br, op(ai, bi)))))
         a, b = s.re, o.re
         if _is_conc(a) and _is_conc(b):
             return op(a, b)
